@@ -1,5 +1,6 @@
 import PynguinModel.Lemmas.Mutants
 import PynguinModel.Lemmas.MutantsTree
+import PynguinModel.Model.MutantsCtl
 /-!
 C28 — mutation analysis yields genuine mutants and leaves the original intact.
 
@@ -7,7 +8,8 @@ The statements are about `Model/Mutants.lean`, which models the code WITH the tw
 (`proposed_fixes/C28-generator-restore-finally.diff`: the restoring assignments of `_generic_visit_list` /
 `_generic_visit_real_node` sit in `finally` clauses, `closeEvs`; `proposed_fixes/C28-hom-mutant-count.diff`:
 `HighOrderMutator.mutation_count` counts the mutants `mutate` yields).  `abandoned_without_finally_cex`
-keeps the defect of the unrepaired code visible.
+keeps the defect of the unrepaired code visible.  The last two sections are about `Model/MutantsCtl.lean`: abandoned
+enumerations of the three mutators and `MutationController` under arbitrary call histories.
 -/
 namespace PynguinModel.Mutants
 
@@ -430,5 +432,297 @@ example : phTree.get? [2] = some (.hole 5) ∧ phTree.nodeAt [3, 1] ∧ ¬ [3, 1
 /-- a regenerated (targeted) mutation behind a placeholder, exhausted: heap restored (`applyOne_spec`) -/
 example : (applyOne [phOp] phTree (0, ⟨[3, 1], 1, .node 8 []⟩) Heap.clean).toOption.map (fun y => y.1.2) =
     some (.node 0 [.hole 5, .node 1 [], .hole 5, .node 2 [.hole 6, .node 8 []]]) := by decide
+
+/-! ### abandoned enumerations (`Model/MutantsCtl.lean`) -/
+
+/-- **An abandoned first-order enumeration leaves the tree intact** (historical path): whatever the number of
+mutants the consumer took before dropping the generator. -/
+theorem histStop_restores (t : Tree) : ∀ (ops : List Op) (o : Nat) (h : Heap) (k : Nat),
+    (histStop t ops o h k).2 = h := by
+  intro ops
+  induction ops with
+  | nil => intro o h k; rfl
+  | cons op ops ih =>
+    intro o h k
+    simp only [histStop]
+    split
+    · exact ih _ _ _
+    · split
+      · rfl
+      · exact abandoned_generator_close_restores h _
+
+/-- … on the sampled / reordered path … -/
+theorem selStop_restores (ops : List Op) (t : Tree) : ∀ (ms : List Mut) (h : Heap) (k : Nat)
+    (ys : List (Mut × Tree)) (hf : Heap), selStop ops t ms h k = .ok (ys, hf) → hf = h := by
+  intro ms
+  induction ms with
+  | nil =>
+    intro h k ys hf ho
+    simp only [selStop, Except.ok.injEq, Prod.mk.injEq] at ho
+    exact ho.2.symm
+  | cons m ms ih =>
+    intro h k ys hf ho
+    cases k with
+    | zero =>
+      simp only [selStop, Except.ok.injEq, Prod.mk.injEq] at ho
+      exact ho.2.symm
+    | succ k =>
+      rw [selStop] at ho
+      split at ho
+      · split at ho
+        · cases ho
+        · split at ho
+          · cases ho
+          · rename_i i h1 _ hn
+            obtain ⟨e1, _, _⟩ := targeted_step hn
+            simp only [Except.ok.injEq, Prod.mk.injEq] at ho
+            rw [← ho.2, e1]
+            exact abandoned_generator_close_restores h i
+      · split at ho
+        · cases ho
+        · split at ho
+          · cases ho
+          · rename_i ys' hf' hr
+            simp only [Except.ok.injEq, Prod.mk.injEq] at ho
+            rw [← ho.2]
+            exact ih _ _ _ _ hr
+
+theorem closeAll_cons (c : Heap × Info) (caps : List (Heap × Info)) (hk : Heap) :
+    closeAll (c :: caps) hk = applyWrites (closeEvs c.1 c.2) (closeAll caps hk) := by
+  simp [closeAll, List.foldl_append]
+
+/-- closing the stacked generators of a higher-order mutant newest first gives back the heap the first one
+started on -/
+theorem closeAll_startAllH (ops : List Op) (t : Tree) : ∀ (g : List Mut) (h hk : Heap) (ms : List Mut)
+    (caps : List (Heap × Info)), startAllH ops t g h = .ok (hk, ms, caps) → closeAll caps hk = h := by
+  intro g
+  induction g with
+  | nil =>
+    intro h hk ms caps hs
+    simp only [startAllH, Except.ok.injEq, Prod.mk.injEq] at hs
+    obtain ⟨rfl, _, rfl⟩ := hs
+    simp [closeAll]
+  | cons m g ih =>
+    intro h hk ms caps hs
+    rw [startAllH] at hs
+    split at hs
+    · cases hs
+    · split at hs
+      · cases hs
+      · rename_i i h1 _ hn
+        obtain ⟨e1, _, _⟩ := targeted_step hn
+        split at hs
+        · cases hs
+        · rename_i hk' ms' caps' hrec
+          simp only [Except.ok.injEq, Prod.mk.injEq] at hs
+          obtain ⟨rfl, _, rfl⟩ := hs
+          rw [closeAll_cons, ih _ _ _ _ hrec, e1]
+          exact abandoned_generator_close_restores h i
+
+/-- … and of a higher-order enumeration. -/
+theorem homStop_restores (ops : List Op) (t : Tree) : ∀ (gs : List (List Mut)) (h : Heap) (k : Nat)
+    (ys : List (List Mut × Tree)) (hf : Heap), homStop ops t gs h k = .ok (ys, hf) → hf = h := by
+  intro gs
+  induction gs with
+  | nil =>
+    intro h k ys hf ho
+    simp only [homStop, Except.ok.injEq, Prod.mk.injEq] at ho
+    exact ho.2.symm
+  | cons g gs ih =>
+    intro h k ys hf ho
+    cases k with
+    | zero =>
+      simp only [homStop, Except.ok.injEq, Prod.mk.injEq] at ho
+      exact ho.2.symm
+    | succ k =>
+      rw [homStop] at ho
+      split at ho
+      · split at ho
+        · cases ho
+        · rename_i hk ms caps hs
+          simp only [Except.ok.injEq, Prod.mk.injEq] at ho
+          rw [← ho.2]
+          exact closeAll_startAllH ops t g h hk ms caps hs
+      · split at ho
+        · cases ho
+        · rename_i hk ms gens hs
+          split at ho
+          · cases ho
+          · split at ho
+            · cases ho
+            · rename_i ys' hf' hr
+              simp only [Except.ok.injEq, Prod.mk.injEq] at ho
+              rw [← ho.2]
+              exact ih _ _ _ _ hr
+
+/-! ### `MutationController`: any history of `create_mutants()` / `mutant_count()` calls -/
+
+theorem enumerate_eq (t : Tree) (m : Mutator) (stop : Option Nat) (h : Heap) :
+    m.enumerate t stop h = (m.enumerateF t stop h).map fun n => (n, h) := by
+  cases m with
+  | hist ops =>
+    cases stop with
+    | none => simp [Mutator.enumerate, Mutator.enumerateF, historical_eq, Except.map]
+    | some k => simp [Mutator.enumerate, Mutator.enumerateF, histStop_restores, Except.map]
+  | sel ops prone cap draws =>
+    simp only [Mutator.enumerate, Mutator.enumerateF, perOperator_eq]
+    cases selectMutations (perOperatorF t ops h) prone cap draws with
+    | error e => rfl
+    | ok ms =>
+      cases stop with
+      | none =>
+        simp only [selectedMutate_eq]
+        cases selectedMutateF ops t ms h <;> rfl
+      | some k =>
+        simp only
+        cases hr : selStop ops t ms h k with
+        | error e => rfl
+        | ok r =>
+          obtain ⟨ys, hf⟩ := r
+          have := selStop_restores ops t ms h k ys hf hr
+          subst this
+          rfl
+  | hom ops gs =>
+    simp only [Mutator.enumerate, Mutator.enumerateF, perOperator_eq]
+    cases stop with
+    | none =>
+      simp only [homMutate_eq]
+      cases homMutateF ops t gs h <;> rfl
+    | some k =>
+      simp only
+      cases hr : homStop ops t gs h k with
+      | error e => rfl
+      | ok r =>
+        obtain ⟨ys, hf⟩ := r
+        have := homStop_restores ops t gs h k ys hf hr
+        subst this
+        rfl
+
+theorem count_eq (t : Tree) (m : Mutator) (h : Heap) :
+    m.count t h = (m.countF t h).map fun n => (n, h) := by
+  cases m with
+  | hist ops => simp [Mutator.count, Mutator.countF, mutationCount_eq, Except.map]
+  | sel ops prone cap draws => simp [Mutator.count, Mutator.countF, mutationCount_eq, Except.map]
+  | hom ops gs => simp only [Mutator.count, Mutator.countF, enumerate_eq]
+
+theorem ctlStep_eq (m : Mutator) (t : Tree) (c : Call) (h : Heap) :
+    ctlStep m t c h = (ctlStepF m t c h).map fun n => (n, h) := by
+  cases c with
+  | count => exact count_eq t m h
+  | create stop => exact enumerate_eq t m stop h
+
+theorem ctlRun_eq (m : Mutator) (t : Tree) : ∀ (cs : List Call) (h : Heap),
+    ctlRun m t cs h = (ctlRunF m t cs h).map fun ns => (ns, h) := by
+  intro cs
+  induction cs with
+  | nil => intro h; rfl
+  | cons c cs ih =>
+    intro h
+    rw [ctlRun, ctlRunF, ctlStep_eq]
+    cases ctlStepF m t c h with
+    | error e => rfl
+    | ok n =>
+      simp only [Except.map, ih]
+      cases ctlRunF m t cs h <;> rfl
+
+/-- **Every controller call gives the syntax tree back**: `mutant_count()`, a `create_mutants()` consumed to
+the end and one the consumer abandons after any number of mutants, for every wrapped mutator. -/
+theorem controller_call_restores {m : Mutator} {t : Tree} {c : Call} {h h' : Heap} {n : Nat}
+    (ho : ctlStep m t c h = .ok (n, h')) : h' = h := by
+  rw [ctlStep_eq] at ho
+  cases hs : ctlStepF m t c h with
+  | error e => rw [hs] at ho; cases ho
+  | ok v => rw [hs] at ho; simp only [Except.map, Except.ok.injEq, Prod.mk.injEq] at ho; exact ho.2.symm
+
+theorem ctlRunF_get (m : Mutator) (t : Tree) (h : Heap) : ∀ (cs : List Call) (outs : List Nat),
+    ctlRunF m t cs h = .ok outs → ∀ (j : Nat) (c : Call), cs[j]? = some c →
+      ∃ n, ctlStepF m t c h = .ok n ∧ outs[j]? = some n := by
+  intro cs
+  induction cs with
+  | nil => intro outs _ j c hc; simp at hc
+  | cons c0 cs ih =>
+    intro outs ho j c hc
+    rw [ctlRunF] at ho
+    split at ho
+    · cases ho
+    · rename_i n hn
+      split at ho
+      · cases ho
+      · rename_i ns hr
+        simp only [Except.ok.injEq] at ho
+        subst ho
+        cases j with
+        | zero =>
+          simp only [List.getElem?_cons_zero, Option.some.injEq] at hc
+          subst hc
+          exact ⟨n, hn, rfl⟩
+        | succ j =>
+          simp only [List.getElem?_cons_succ] at hc
+          obtain ⟨n', h1, h2⟩ := ih ns hr j c hc
+          exact ⟨n', h1, by simpa using h2⟩
+
+/-- **The result of a controller call does not depend on the calls before it.**  In any history of calls on
+one controller, the `j`-th call returns what the same call returns on a fresh controller (and the tree is
+intact at the end). -/
+theorem controller_call_history_independent {m : Mutator} {t : Tree} {cs : List Call} {h hf : Heap}
+    {outs : List Nat} (ho : ctlRun m t cs h = .ok (outs, hf)) :
+    hf = h ∧ ∀ (j : Nat) (c : Call), cs[j]? = some c →
+      ∃ n, ctlStep m t c h = .ok (n, h) ∧ outs[j]? = some n := by
+  rw [ctlRun_eq] at ho
+  cases hs : ctlRunF m t cs h with
+  | error e => rw [hs] at ho; cases ho
+  | ok v =>
+    rw [hs] at ho
+    simp only [Except.map, Except.ok.injEq, Prod.mk.injEq] at ho
+    obtain ⟨rfl, rfl⟩ := ho
+    refine ⟨rfl, fun j c hc => ?_⟩
+    obtain ⟨n, h1, h2⟩ := ctlRunF_get m t h cs v hs j c hc
+    exact ⟨n, by rw [ctlStep_eq, h1]; rfl, h2⟩
+
+/-- **Count (controller).** A successful `mutant_count()` reports the length of the FULL enumeration — all
+first-order mutations also when the mutator carries a cap or the reorder flag, all groups of the strategy
+for a higher-order mutator. -/
+theorem controller_count_eq_full {m : Mutator} {t : Tree} {h h' : Heap} {n : Nat}
+    (ho : ctlStep m t .count h = .ok (n, h')) : n = m.fullLength t h := by
+  cases m with
+  | hist ops =>
+    simp only [ctlStep, Mutator.count, Except.ok.injEq] at ho
+    rw [Mutator.fullLength, ← (count_eq_full_length t ops 0 h).1, ho]
+  | sel ops prone cap draws =>
+    simp only [ctlStep, Mutator.count, Except.ok.injEq] at ho
+    rw [Mutator.fullLength, ← (count_eq_full_length t ops 0 h).1, ho]
+  | hom ops gs =>
+    simp only [ctlStep, Mutator.count, Mutator.enumerate, perOperator_eq] at ho
+    cases hm : homMutate ops t gs h with
+    | error e => rw [hm] at ho; cases ho
+    | ok r =>
+      rw [hm] at ho
+      simp only [Except.ok.injEq, Prod.mk.injEq] at ho
+      obtain ⟨ys, hf⟩ := r
+      rw [Mutator.fullLength, ← ho.1]
+      exact (hom_enumeration_restores hm).2
+
+/-- **The reported count is independent of the call history**: every `mutant_count()` of every history of
+`create_mutants()` (complete or abandoned) / `mutant_count()` calls on one controller reports the length of
+the full enumeration — in particular not the size of a sample a capped `create_mutants()` run delivered. -/
+theorem controller_count_history_independent {m : Mutator} {t : Tree} {cs : List Call} {h hf : Heap}
+    {outs : List Nat} (ho : ctlRun m t cs h = .ok (outs, hf)) :
+    ∀ j : Nat, cs[j]? = some Call.count → outs[j]? = some (m.fullLength t h) := by
+  intro j hc
+  obtain ⟨n, h1, h2⟩ := (controller_call_history_independent ho).2 j Call.count hc
+  rw [h2, controller_count_eq_full h1]
+
+
+/-! non-vacuity of the controller theorems: `exTree`/`exOps` have 4 first-order mutations; a complete run delivers
+4, an abandoned one what the consumer took, `mutant_count()` reports 4 at every position of the history -/
+example : (ctlRunF (.hist exOps) exTree [.create (some 3), .count, .create none, .count] Heap.clean).toOption
+    = some [3, 4, 4, 4] := by decide
+example : (ctlRunF (.sel exOps [false, false] none []) exTree
+    [.count, .create none, .count, .create (some 1), .count] Heap.clean).toOption
+    = some [4, 4, 4, 1, 4] := by decide
+/-- a second-order mutator: 2 groups from the mutations; the count is the number of groups at every position -/
+example : (ctlRunF (.hom exOps [[(0, ⟨[0], 0, .node 9 []⟩), (0, ⟨[1, 1], 2, .node 7 []⟩)],
+      [(0, ⟨[1, 1], 1, .node 8 []⟩)]]) exTree
+    [.create none, .count, .create (some 1), .count] Heap.clean).toOption = some [2, 2, 1, 2] := by decide
 
 end PynguinModel.Mutants
